@@ -109,6 +109,13 @@ BPush(nm) == LET o == objs[nm] IN
     /\ owner' = [id \in (DOMAIN owner) \cup {nextid} |-> IF id = nextid THEN nm ELSE owner[id]]
     /\ nextid' = nextid + 1 /\ Log("push", nm) /\ UNCHANGED <<handed, clones, err>>
 
+\* ArrayBuilder::push on a full builder: the assertion fires before anything is written; the value that was passed in is
+\* dropped by the unwinding and the builder is left exactly as it was (it can still be inspected and built)
+BPushFull(nm) == LET o == objs[nm] IN
+    /\ o.kind = "builder" /\ o.inited = N /\ clones < MaxClones
+    /\ owner' = [id \in (DOMAIN owner) \cup {nextid} |-> IF id = nextid THEN "dropped" ELSE owner[id]]
+    /\ nextid' = nextid + 1 /\ clones' = clones + 1 /\ Log("push_full", nm) /\ UNCHANGED <<objs, handed, err>>
+
 \* ArrayBuilder::build: assert full, ManuallyDrop, read the whole array
 BBuild(nm) == LET o == objs[nm] IN
     /\ o.kind = "builder" /\ o.inited = N
@@ -117,7 +124,7 @@ BBuild(nm) == LET o == objs[nm] IN
     /\ Set(nm, NoObj) /\ Log("build", nm) /\ UNCHANGED <<nextid, clones>>
 
 Next == \E nm \in Names :
-          \/ CNext(nm) \/ CNextBack(nm) \/ CNone(nm) \/ DropObj(nm) \/ CAssertEmpty(nm) \/ BPush(nm) \/ BBuild(nm)
+          \/ CNext(nm) \/ CNextBack(nm) \/ CNone(nm) \/ DropObj(nm) \/ CAssertEmpty(nm) \/ BPush(nm) \/ BPushFull(nm) \/ BBuild(nm)
           \/ \E to \in Names \ {nm} : Clone(nm, to)
           \/ \E j \in 0..(N - 1) : ClonePanic(nm, j)
 Spec == Init /\ [][Next]_vars
